@@ -233,6 +233,30 @@ def run(chk, binary):
         if len(lst) == 2 and (lst[0][1][0], lst[0][1][1]) != (lst[1][1][0], lst[1][1][1]):
             chk.violation("spec:alias and raw notation behave differently", {"mode": "whole argument", "before": list(pre_args), "keys_a": lst[0][0], "keys_b": repr(lst[1][0]),
                           "stdout_a": lst[0][1][1].decode(errors="replace"), "stdout_b": lst[1][1][1].decode(errors="replace")})
+    # ---- B3. a vic script read from a file: a raw special byte inside a key string is the key, as its alias is ----
+    import os
+    from ..common import TMP
+    sdir = os.path.join(TMP, f"c15s_{os.getpid()}")
+    os.makedirs(sdir, exist_ok=True)
+    sjobs, smeta = [], []
+    for n_, (alias_keys, raw_keys) in enumerate([("Aone<CR>two<esc>", "Aone\rtwo\x1b"), ("A<tab>x<esc>", "A\tx\x1b"), ("ix<BS>y<esc>", "ix\x7fy\x1b"), ("A1<CR><CR>2<esc>gg", "A1\r\r2\x1bgg"), ("o<esc>ix<CR>y<esc>", "o\x1bix\ry\x1b")]):
+        for kind, keys in (("alias", alias_keys), ("raw", raw_keys)):
+            path = os.path.join(sdir, f"s{n_}_{kind}.vic")
+            with open(path, "wb") as f_:
+                f_.write(('move "%s"\n' % keys).encode("utf-8"))          # (no cut: the text is printed as it stands)
+            sjobs.append({"args": ["--json", "--script", path] if False else [path], "stdin": "hello world\nsecond\n"})
+            smeta.append((n_, kind, keys))
+    sres = cli_map(binary, sjobs)
+    for k_ in range(0, len(smeta), 2):
+        chk.count(("script-file", smeta[k_][2]), nontrivial=True)
+        ra, rr = sres[k_], sres[k_ + 1]
+        if ra[0] != 0:
+            chk.violation("harness:the alias form of a script file does not run", {"keys": smeta[k_][2], "stderr": ra[2].decode(errors="replace")[-300:]}, concrete=False)
+        if (ra[0], ra[1]) != (rr[0], rr[1]):
+            chk.violation("spec:alias and raw notation behave differently", {"mode": "vic script read from a file", "keys_a": smeta[k_][2], "keys_b": repr(smeta[k_ + 1][2]),
+                          "stdout_a": ra[1].decode(errors="replace"), "stdout_b": rr[1].decode(errors="replace"), "rc": [ra[0], rr[0]], "stderr_b": rr[2].decode(errors="replace")[-200:]})
+    import shutil
+    shutil.rmtree(sdir, ignore_errors=True)
     # ---- C. insert-mode texts with '<', '>', '\\' and multi-byte are taken literally ----
     jobs = []
     meta = []
